@@ -84,7 +84,7 @@ type ndMsg struct {
 
 type ndStats struct {
 	steps, delivered, dropped, dups, timeouts, fasts, crashes, holds, parts, byzVotes, byzBundles, byzProps, catchups int
-	votes, sees, enters, commits, droppedVotes, maxPeriod, diverged                                                  int
+	votes, sees, enters, commits, droppedVotes, maxPeriod, diverged                                                   int
 }
 
 type ndRun struct {
@@ -316,6 +316,9 @@ func ndAfterHandle(s *Service, router *rootRouter, status *player, e externalEve
 					break
 				}
 			}
+			if ce.Round > 0 {
+				n.persistedInGen = true
+			}
 			r.logLocked("CHECKPOINT node=%d gen=%d round=%d period=%d step=%d", n.id, n.gen, ce.Round, ce.Period, ce.Step)
 		}
 	case roundInterruption:
@@ -464,7 +467,7 @@ func (r *ndRun) onWire(src int, tag protocol.Tag, data []byte, mask []bool) {
 		if err := protocol.Decode(data, &tp); err == nil {
 			pv := tp.unauthenticatedProposal.value()
 			r.learnValueLocked(tp.unauthenticatedProposal.Round(), pv)
-			r.logLocked("PROPOUT src=%d round=%d val=%s pvperiod=%d", src, tp.unauthenticatedProposal.Round(), ndTok(pv), tp.PriorVote.R.Period)
+			r.logLocked("PROPOUT src=%d round=%d val=%s pvperiod=%d h=%s", src, tp.unauthenticatedProposal.Round(), ndTok(pv), tp.PriorVote.R.Period, hs)
 		}
 	case protocol.VoteBundleTag:
 		tc = "B"
